@@ -14,6 +14,7 @@ Spec forms added to the clause language (all exact definitions or uninterpreted 
   bitand/bitor(a,b)  python's & and | on unbounded integers
   tape(t, pos, n)    the n bytes of tape t at position pos (tapei(id, pos, n): the same by tape id);   systape()   the system tape;   tape_of(rf)   rf, or the system
                      tape when rf is None / os.urandom
+  all_of / any_of / imp   non-forking boolean connectives (every argument is evaluated; keeps callee contracts cheap)
   kwarg(name[, d])   value of the keyword `name` in the ENTRY **kwargs dict (the body pops from it)
 Lemma forms (each returns the ground instance of a theorem about an uninterpreted symbol, and records it as a fact; they are
 listed as TRUSTED mathematical facts in the evidence, see LEMMA_TEXT):
@@ -247,6 +248,25 @@ def sf_kwarg(E, st, args, kw):
     return val(st, src.heap[ref.oid].items.get(name, default))
 
 
+def _tz(E, st, v):
+    t = E.truth(v, st)
+    return z3.BoolVal(t) if isinstance(t, bool) else t
+
+
+def sf_all_of(E, st, args, kw):
+    """non-forking conjunction: every argument is evaluated (each must be well defined)"""
+    return val(st, mk_bool(z3.And([_tz(E, st, a) for a in args])))
+
+
+def sf_any_of(E, st, args, kw):
+    return val(st, mk_bool(z3.Or([_tz(E, st, a) for a in args])))
+
+
+def sf_imp(E, st, args, kw):
+    """non-forking implication (both sides are evaluated)"""
+    return val(st, mk_bool(z3.Implies(_tz(E, st, args[0]), _tz(E, st, args[1]))))
+
+
 def sf_kwargs_only(E, st, args, kw):
     """the ENTRY **kwargs dict has no key outside the given names"""
     ref = st.frame.env.get('kwargs')
@@ -258,7 +278,7 @@ def sf_kwargs_only(E, st, args, kw):
 
 FORMS = {'ival': sf_ival, 'ipow': sf_ipow, 'modpow': sf_modpow, 'modinv': sf_modinv, 'gcd': sf_gcd, 'bitlen': sf_bitlen,
          'bitand': sf_bitand, 'bitor': sf_bitor, 'be_cat': sf_be_cat, 'be_lt': sf_be_lt, 'modpow_reduce': sf_modpow_reduce, 'mulmod_reduce': sf_mulmod_reduce, 'pow2_add': sf_pow2_add,
-         'lemma': sf_lemma, 'systape': sf_systape, 'tape_of': sf_tape_of, 'tape': sf_tape, 'tapei': sf_tapei, 'kwarg': sf_kwarg, 'kwargs_only': sf_kwargs_only}
+         'lemma': sf_lemma, 'systape': sf_systape, 'tape_of': sf_tape_of, 'tape': sf_tape, 'tapei': sf_tapei, 'kwarg': sf_kwarg, 'kwargs_only': sf_kwargs_only, 'all_of': sf_all_of, 'any_of': sf_any_of, 'imp': sf_imp}
 for _nm, _fn in FORMS.items():
     interp.SPEC_BUILTINS.setdefault(_nm, BuiltinV('spec.' + _nm, _fn))
 
@@ -326,6 +346,32 @@ LEMMA_TARGETS = ['spec.integer.lemma_radix_lt', 'spec.integer.lemma_radix_ge', '
 def lemma_units(prop, prefix, registry):
     from vf.pyunit import pyvc_unit
     return [pyvc_unit(prop, prefix + 'lemmas', registry, list(LEMMA_TARGETS))]
+
+
+# ---------------------------------------------------------------- long_to_bytes / bytes_to_long as seen by the integer areas
+
+NUM = 'Crypto.Util.number.'
+
+
+def ltb_contract(assumed=True):
+    """long_to_bytes(n, blocksize): accepts a python int or an Integer object (it only uses & >> comparisons and struct.pack).
+    Clauses from its docstring: big-endian value; minimal length when blocksize == 0; exactly blocksize bytes when n fits;
+    plus the two consequences of positional notation (upper / lower bound by length) that callers need."""
+    return Contract(NUM + 'long_to_bytes', params={'n': 'int', 'blocksize': 'int'},
+                    raises={'ValueError': ('iff', 'ival(n) < 0 or blocksize < 0')}, result='bytes',
+                    ensures={'value': 'be(result) == ival(n)', 'nonempty': 'len(result) >= 1',
+                             'bound': 'ival(n) < pow2(8 * len(result))',
+                             'zero': 'imp(all_of(blocksize == 0, ival(n) == 0), result == bytes(1))',
+                             'minimal': 'imp(all_of(blocksize == 0, ival(n) > 0), all_of(nth(result, 0) != 0, ival(n) >= pow2(8 * (len(result) - 1))))',
+                             'fixed': 'imp(all_of(blocksize > 0, ival(n) < pow2(8 * blocksize)), all_of(len(result) == blocksize, result == i2osp(ival(n), blocksize)))'},
+                    modifies=[],
+                    assumed=('bounded: bounded/number.py against int.to_bytes (NOT PROVED: list.insert(0, ...) in loops with a symbolic '
+                             'trip count is outside the PYVC list abstractions)') if assumed else None)
+
+
+def use_lean_number_contracts(reg):
+    reg.add(ltb_contract())
+    return reg
 
 
 # ---------------------------------------------------------------- entry-state builders
